@@ -605,6 +605,7 @@ func c18Timeouts(c *sim.Case) {
 
 func TestC18(t *testing.T) {
 	r := sim.NewRun(t, "C18")
+	r.ShrinkTime = "2s" // real-time cases: a shrink attempt costs seconds
 	defer r.Finish()
 	r.Rule = "configurations with 2-3 OIDC filters in separate chains (selected by a header), distinct cookie prefixes, providers with separate keys, client ids and (absolute, idle) timeouts in {0..3 s}^2, all on the shared memory store, all on one Redis URI, mixed, or each on its own database of one Redis server; assembled with the real session-store factory behind server.ExtAuthZFilter.Check. Histories: log in through filter A, then towards B: the same Cookie header, A's session id under B's cookie name, both cookies, A's pending id under B's name followed by B's own callback, B's own login and its id under A's name. Oracle: ghost map session id -> creating filter (an OK from B for an id not created through B is a violation; forwarded tokens must be B's provider's). Timeouts part (real time): three sessions per filter with drawn access timelines in 0.5 s slots, judged against the creating filter's own limits with 1-1.5 s margins. Non-trivial = a request to B carried an id minted by A under B's cookie name / a session was seen alive and expired; distinct = distinct (configuration, history)."
 	r.Assumptions = []string{"real-time margins: must-not beyond limit + 1 s, must within limit - 1.5 s"}
